@@ -383,7 +383,7 @@ fn find_files(dir: &Path, name: &str, out: &mut Vec<std::path::PathBuf>) {
 // C20 / C19 under a pseudo-terminal
 
 /// Run n2 with stdin/stdout/stderr on a pty of the given size; returns (exit, signal, bytes shown).
-fn run_on_pty(env: &RealEnv, dir: &Path, args: &[String], cols: u16, rows: u16, resize_to: Option<u16>, timeout_s: u64) -> (Option<i32>, Option<i32>, Vec<u8>, bool) {
+fn run_on_pty(env: &RealEnv, dir: &Path, args: &[String], cols: u16, rows: u16, resize_to: Option<u16>, timeout_s: u64) -> (Option<i32>, Option<i32>, Vec<u8>, bool, Option<usize>) {
     use std::os::fd::FromRawFd;
     use std::os::unix::process::ExitStatusExt;
     let mut master: libc::c_int = 0;
@@ -391,7 +391,7 @@ fn run_on_pty(env: &RealEnv, dir: &Path, args: &[String], cols: u16, rows: u16, 
     let ws = libc::winsize { ws_row: rows, ws_col: cols, ws_xpixel: 0, ws_ypixel: 0 };
     let rc = unsafe { libc::openpty(&mut master, &mut slave, std::ptr::null_mut(), std::ptr::null(), &ws) };
     if rc != 0 {
-        return (None, None, b"openpty failed".to_vec(), true);
+        return (None, None, b"openpty failed".to_vec(), true, None);
     }
     unsafe {
         libc::fcntl(master, libc::F_SETFD, libc::FD_CLOEXEC);
@@ -409,7 +409,7 @@ fn run_on_pty(env: &RealEnv, dir: &Path, args: &[String], cols: u16, rows: u16, 
     }
     let mut child = match cmd.spawn() {
         Ok(c) => c,
-        Err(e) => return (None, None, format!("spawn: {}", e).into_bytes(), true),
+        Err(e) => return (None, None, format!("spawn: {}", e).into_bytes(), true, None),
     };
     unsafe { libc::close(slave) };
     // non-blocking reads from the master
@@ -420,6 +420,7 @@ fn run_on_pty(env: &RealEnv, dir: &Path, args: &[String], cols: u16, rows: u16, 
     let mut shown = Vec::new();
     let t0 = std::time::Instant::now();
     let mut resized = false;
+    let mut resized_at: Option<usize> = None;
     let mut timed_out = false;
     let mut status = None;
     let mut buf = [0u8; 65536];
@@ -441,6 +442,7 @@ fn run_on_pty(env: &RealEnv, dir: &Path, args: &[String], cols: u16, rows: u16, 
                 let w2 = libc::winsize { ws_row: rows, ws_col: c, ws_xpixel: 0, ws_ypixel: 0 };
                 unsafe { libc::ioctl(master, libc::TIOCSWINSZ, &w2) };
                 resized = true;
+                resized_at = Some(shown.len());
             }
         }
         if t0.elapsed().as_secs() > timeout_s {
@@ -452,7 +454,7 @@ fn run_on_pty(env: &RealEnv, dir: &Path, args: &[String], cols: u16, rows: u16, 
         std::thread::sleep(std::time::Duration::from_millis(2));
     }
     unsafe { libc::close(master) };
-    (status.and_then(|s| s.code()), status.and_then(|s| s.signal()), shown, timed_out)
+    (status.and_then(|s| s.code()), status.and_then(|s| s.signal()), shown, timed_out, resized_at)
 }
 
 /// Remove ANSI escape sequences and carriage returns.
@@ -500,6 +502,12 @@ pub fn c20_pty_case(ctx: &Ctx, env: &RealEnv, dir: &Path, case: u64, seed: u64, 
         if rng.chance(3, 4) {
             manifest.push_str(&format!("  description = {}\n", desc.replace('$', "$$")));
         }
+        if rng.chance(1, 6) {
+            manifest.push_str("  hide_progress = 1\n");
+        }
+        if rng.chance(1, 6) {
+            manifest.push_str("  hide_success = 1\n");
+        }
         manifest.push_str(&format!("build o{}: r{}\n", i, i));
         names.push(format!("o{}", i));
     }
@@ -521,6 +529,7 @@ pub fn c20_pty_case(ctx: &Ctx, env: &RealEnv, dir: &Path, case: u64, seed: u64, 
     let twin = dir.with_file_name("twin");
     let mut results = Vec::new();
     let mut resized_to: Option<u16> = None;
+    let mut resized_at: Option<usize> = None;
     for tty in [false, true] {
         let d = if tty { dir.to_path_buf() } else { twin.clone() };
         let _ = std::fs::create_dir_all(&d);
@@ -529,7 +538,8 @@ pub fn c20_pty_case(ctx: &Ctx, env: &RealEnv, dir: &Path, case: u64, seed: u64, 
         if tty {
             let resize = if rng.chance(1, 3) { Some(rng.range(10, 200) as u16) } else { None };
             resized_to = resize;
-            let (exit, sig, shown, to) = run_on_pty(env, &d, &args, cols, 24, resize, 60);
+            let (exit, sig, shown, to, at) = run_on_pty(env, &d, &args, cols, 24, resize, 60);
+            resized_at = at;
             results.push((exit, sig, strip_ansi(&shown), shown, to));
         } else {
             let w = crate::sim::World::new(d.clone(), Project { manifest: "build.ninja".into(), ..Default::default() });
@@ -599,6 +609,30 @@ pub fn c20_pty_case(ctx: &Ctx, env: &RealEnv, dir: &Path, case: u64, seed: u64, 
         let width = w1.max(resized_to.unwrap_or(0) as usize);
         if (l.starts_with('D') || l.starts_with("printf")) && l.len() > width.max(12) && l.ends_with("...") {
             rep.violation("task-line-too-wide", &format!("{:?} is {} bytes on a {}-column terminal", l, l.len(), width), mk());
+        }
+    }
+    // after a resize, frames drawn from the second one on must respect the new width
+    if let (Some(at), Some(newc)) = (resized_at, resized_to) {
+        let after = &pty.3[at.min(pty.3.len())..];
+        // skip the frame that may have been in flight: start at the second "clear below" sequence
+        let mut starts = Vec::new();
+        let mut i = 0;
+        while i + 3 <= after.len() {
+            if &after[i..i + 3] == b"\x1b[J" {
+                starts.push(i);
+            }
+            i += 1;
+        }
+        if starts.len() >= 2 {
+            let text = strip_ansi(&after[starts[1]..]);
+            let width = (newc as usize).max(12);
+            rep.count("frames_after_resize_checked", 1);
+            for l in text.lines() {
+                if l.ends_with("...") && l.len() > width && !l.starts_with("n2:") {
+                    rep.violation("line-wider-than-resized-terminal", &format!("after the terminal was resized from {} to {} columns a cut line is {} bytes: {:?}", cols, newc, l.len(), l), mk());
+                    break;
+                }
+            }
         }
     }
     rep.nontrivial.insert(fnv(manifest.as_bytes()) ^ cols as u64);
